@@ -262,6 +262,85 @@ func (m *Machine) markCharFree(t *Term, chars string) {
 	}
 }
 
+// lenKnown returns the length of t when it is syntactically determined (literals, terms whose
+// length was fixed by an assumption, concatenations of those).
+func (m *Machine) lenKnown(t *Term) (int, bool) {
+	if t.IsConst() {
+		return len(t.Str), true
+	}
+	if n, ok := m.klen[t]; ok {
+		return n, true
+	}
+	if t.Op == "str.++" {
+		sum := 0
+		for _, a := range t.Args {
+			n, ok := m.lenKnown(a)
+			if !ok {
+				return 0, false
+			}
+			sum += n
+		}
+		return sum, true
+	}
+	return 0, false
+}
+
+// setLen assumes and records len(t) = n.
+func (m *Machine) setLen(t *Term, n int) {
+	if t.IsConst() {
+		return
+	}
+	if m.klen == nil {
+		m.klen = map[*Term]int{}
+	}
+	if _, ok := m.klen[t]; !ok {
+		m.assume(mk("=", SBool, mk("str.len", SInt, t), IntC(int64(n))))
+		m.klen[t] = n
+	}
+}
+
+// splitAt splits a concatenation after exactly n bytes when all lengths involved are known.
+func (m *Machine) splitAt(t *Term, n int) (head, tail *Term, ok bool) {
+	ps := pieces(t)
+	var h []*Term
+	for i, p := range ps {
+		if n == 0 {
+			return joinPieces(h), joinPieces(ps[i:]), true
+		}
+		l, known := m.lenKnown(p)
+		if !known {
+			return nil, nil, false
+		}
+		if l <= n {
+			h = append(h, p)
+			n -= l
+			continue
+		}
+		// the boundary falls inside p
+		var a, b *Term
+		if p.IsConst() {
+			a, b = StrC(p.Str[:n]), StrC(p.Str[n:])
+		} else {
+			a = mk("str.substr", SString, p, IntC(0), IntC(int64(n)))
+			b = mk("str.substr", SString, p, IntC(int64(n)), IntC(int64(l-n)))
+			if m.klen == nil {
+				m.klen = map[*Term]int{}
+			}
+			m.klen[a], m.klen[b] = n, l-n // implied by len(p) = l
+			if set, okc := m.cfree[p]; okc {
+				m.cfree[a], m.cfree[b] = set, set // substrings of a string free of a byte are free of it
+			}
+		}
+		h = append(h, a)
+		rest := append([]*Term{b}, ps[i+1:]...)
+		return joinPieces(h), joinPieces(rest), true
+	}
+	if n == 0 {
+		return joinPieces(h), StrC(""), true
+	}
+	return nil, nil, false
+}
+
 // cutAtByte splits a concatenation at the first occurrence of byte ch when that position
 // is syntactically determined: every piece before it is known to be free of ch.
 func (m *Machine) cutAtByte(t *Term, ch byte) (before, after *Term, ok bool) {
